@@ -12,7 +12,14 @@ import (
 type Verdict struct {
 	Violation string // empty = property held on this execution
 	Signature string // observable outcome of the execution (for "distinct outcomes" and determinism)
+	// Persistent: the code under test left goroutines alive (blocked) after the call returned and the property
+	// does not forbid that (a helper pool). They die with the controlled execution while package-level state
+	// (a sync.Once, the pool's bookkeeping) survives, so later executions of this process would run against a
+	// pool without helpers: the exploration stops after this execution and says so (never an alarm).
+	Persistent bool
 }
+
+const persistentNote = "the code under test keeps goroutines alive after the call returned (a helper pool); they end with the controlled execution while package-level state survives, so only the first execution of the process is meaningful - explored 1 execution, no alarm"
 
 // Config of one exploration.
 type Config struct {
@@ -59,6 +66,27 @@ type Stats struct {
 	Warmup      bool // the first execution of the process differed from the later ones (lazily built package state)
 }
 
+// PersistentNote is the cap reason used when the code under test keeps goroutines alive across calls.
+const PersistentNote = persistentNote
+
+// Controlled runs body as the only thread of a controlled execution (default schedule). Reference values are
+// computed this way, never free-running inside a process that also explores: goroutines started by a
+// free-running call would wait on real channels while the explored calls talk to the modelled ones.
+// leaked reports that body left goroutines blocked behind (they are ended with the execution).
+func Controlled(body func(), opt vsched.Options) (leaked bool, panicVal string) {
+	x := vsched.Run(body, nil, opt)
+	switch x.Outcome {
+	case vsched.OutLeak:
+		// goroutines started inside a sync.Once function are started again by the next execution
+		return !x.LeakFromOnce, ""
+	case vsched.OutPanic:
+		return false, x.PanicVal
+	case vsched.OutDone:
+		return false, ""
+	}
+	return false, "reference run ended with " + x.Outcome.String()
+}
+
 func (c *Config) run(prefix []int, trace bool) (*vsched.Exec, Verdict) {
 	body, check := c.NewExec()
 	opt := c.Opt
@@ -90,6 +118,13 @@ func Explore(c Config) *Stats {
 	}
 	// determinism: the root schedule twice, identical observation logs and signatures
 	x1, v1 := c.run(nil, false)
+	if v1.Persistent && v1.Violation == "" {
+		st.Execs, st.Transitions = 1, x1.Steps
+		st.Outcomes[x1.Outcome.String()]++
+		st.Signatures[v1.Signature]++
+		st.Capped = persistentNote
+		return st
+	}
 	x2, v2 := c.run(nil, false)
 	if x1.LogHash != x2.LogHash || v1.Signature != v2.Signature || len(x1.Points) != len(x2.Points) {
 		// package-level state that is built lazily (a sync.Once, a cache) makes the very first execution of
